@@ -843,6 +843,17 @@ func oracleKill(r *rng, n int, st *oracleStats) []oracleFailure {
 
 var errInjected = errors.New("injected store failure")
 
+// guard runs f and returns the panic message, if any.
+func guard(f func()) (msg string) {
+	defer func() {
+		if p := recover(); p != nil {
+			msg = fmt.Sprint(p)
+		}
+	}()
+	f()
+	return ""
+}
+
 type flakyStore struct {
 	inner lungo.Store
 	mode  int // 0 ok, 1 fail before writing, 2 fail after writing
@@ -903,7 +914,7 @@ func oracleFailingStore(r *rng, n int, st *oracleStats) []oracleFailure {
 		return []oracleFailure{{Property: "C05", What: "infrastructure: cannot create directory"}}
 	}
 	defer os.RemoveAll(root)
-	for it := 0; it < n; it++ {
+	for it := 0; it < n && len(fails) < 6; it++ {
 		dir := filepath.Join(root, strconv.Itoa(it))
 		os.Mkdir(dir, 0777)
 		fstore := lungo.NewFileStore(fsStorePath(dir), 0666)
@@ -935,24 +946,32 @@ func oracleFailingStore(r *rng, n int, st *oracleStats) []oracleFailure {
 			id := int32(r.intn(6))
 			var opErr error
 			var op string
-			switch r.intn(4) {
-			case 0:
-				op = fmt.Sprintf("insert %d", id)
-				_, opErr = coll.InsertOne(ctx, bson.D{{Key: "_id", Value: id}, {Key: "v", Value: int32(s)}})
-			case 1:
-				op = fmt.Sprintf("update %d", id)
-				_, opErr = coll.UpdateOne(ctx, bson.D{{Key: "_id", Value: id}}, bson.D{{Key: "$set", Value: bson.D{{Key: "v", Value: int32(100 + s)}}}}, options.Update().SetUpsert(r.intn(2) == 0))
-			case 2:
-				op = fmt.Sprintf("delete %d", id)
-				_, opErr = coll.DeleteOne(ctx, bson.D{{Key: "_id", Value: id}})
-			default:
-				op = fmt.Sprintf("insertmany %d %d", 10+s, 20+s)
-				_, opErr = coll.InsertMany(ctx, []interface{}{bson.D{{Key: "_id", Value: int32(10 + s)}}, bson.D{{Key: "_id", Value: int32(20 + s)}}})
-			}
+			kind := r.intn(4)
+			panicked := guard(func() {
+				switch kind {
+				case 0:
+					op = fmt.Sprintf("insert %d", id)
+					_, opErr = coll.InsertOne(ctx, bson.D{{Key: "_id", Value: id}, {Key: "v", Value: int32(s)}})
+				case 1:
+					op = fmt.Sprintf("update %d", id)
+					_, opErr = coll.UpdateOne(ctx, bson.D{{Key: "_id", Value: id}}, bson.D{{Key: "$set", Value: bson.D{{Key: "v", Value: int32(100 + s)}}}}, options.Update().SetUpsert(r.intn(2) == 0))
+				case 2:
+					op = fmt.Sprintf("delete %d", id)
+					_, opErr = coll.DeleteOne(ctx, bson.D{{Key: "_id", Value: id}})
+				default:
+					op = fmt.Sprintf("insertmany %d %d", 10+s, 20+s)
+					_, opErr = coll.InsertMany(ctx, []interface{}{bson.D{{Key: "_id", Value: int32(10 + s)}}, bson.D{{Key: "_id", Value: int32(20 + s)}}})
+				}
+			})
 			cancel()
 			script = append(script, fmt.Sprintf("%s/mode%d", op, mode))
 			stored := ws.calls > calls
 			detail := map[string]interface{}{"script": script, "step": s, "mode": mode}
+			if panicked != "" {
+				detail["panic"] = panicked
+				fail("panic in a write whose commit ran (store ok or failing)", detail)
+				break
+			}
 			if stored && mode != 0 {
 				injected++
 				st.Dist[fmt.Sprintf("store-failure:mode%d", mode)]++
@@ -973,7 +992,12 @@ func oracleFailingStore(r *rng, n int, st *oracleStats) []oracleFailure {
 				// later commits work: probe write
 				ws.mode = 0
 				pctx, pcancel := context.WithTimeout(context.Background(), 2*time.Second)
-				_, perr := coll.InsertOne(pctx, bson.D{{Key: "_id", Value: fmt.Sprintf("probe-%d", s)}})
+				var perr error
+				if pp := guard(func() {
+					_, perr = coll.InsertOne(pctx, bson.D{{Key: "_id", Value: fmt.Sprintf("probe-%d", s)}})
+				}); pp != "" {
+					perr = fmt.Errorf("panic: %s", pp)
+				}
 				pcancel()
 				if perr != nil {
 					detail["probe_error"] = perr.Error()
@@ -1042,7 +1066,7 @@ func oracleAtomicFail(r *rng, n int, st *oracleStats) []oracleFailure {
 		return []oracleFailure{{Property: "C05", What: "infrastructure: cannot create directory"}}
 	}
 	defer os.RemoveAll(root)
-	for it := 0; it < n; it++ {
+	for it := 0; it < n && len(fails) < 6; it++ {
 		dir := filepath.Join(root, strconv.Itoa(it))
 		os.Mkdir(dir, 0777)
 		path := filepath.Join(dir, "f")
